@@ -194,6 +194,8 @@ def main():
             u, meta, res, att = r
             good = [o['id'] for o in att.all_obligations if o['id'] not in att.failed]
             baseline[unit] = sorted(good)
+            baseline['sensitive::' + unit] = dict((f['id'], props.sensitive_tokens(f.get('idents', [])))
+                                                  for f in meta['functions'])
             whitelist[unit] = sorted(set(t for (_n, _k, t) in meta['trusted']))
         os.makedirs(os.path.dirname(BASELINE), exist_ok=True)
         with open(BASELINE, 'w') as f:
@@ -241,6 +243,11 @@ def main():
         if oid not in base_all:
             ctx.undecided.append('obligation %s fails but was never in the baseline (not a verdict)' % oid)
             continue
+        if P.get('classify'):
+            verdict_, why = P['classify'](ctx, oid, meta, baseline)
+            if verdict_ != 'violation':
+                ctx.undecided.append('obligation %s failed: %s' % (oid, why))
+                continue
         extra = ''
         if P.get('replayer'):
             try:
